@@ -343,6 +343,114 @@ def occurrence_index(prog):
     return out
 
 
+def _hash_side(hashfn, g):
+    """in `hash`: the helper is called inside the clause loop, None leads to the next clause with no multiplication or
+    store, Some(p) is multiplied into the accumulator"""
+    errs = []
+    hte, hcfg = hashfn.terms, hashfn.cfg
+    calls = [c for c in hte.calls if c.callee.name == g.name]
+    hloops = sorted([h for h, body in hcfg.loop_headers.items() if calls and calls[0].bb in body], key=lambda h: -len(hcfg.loop_headers[h]))
+    if not calls or not hloops:
+        errs.append("?hash does not call the helper inside its clause loop")
+        return errs
+    h_out = hloops[0]
+    nxt = hashfn.blocks[calls[0].bb]["term"].get("target")
+    sw = hashfn.blocks[nxt]["term"] if nxt is not None else None
+    if not sw or sw["k"] != "switch":
+        errs.append("?hash does not branch on the helper's Option")
+        return errs
+    tg = {v: t for v, t in sw["targets"]}
+    none_t = tg.get("0")
+    some_t = tg.get("1", sw["otherwise"])
+    if none_t is not None:
+        r0 = hcfg.reachable_from(none_t, avoid={h_out})
+        bad = [c for c in hte.calls if c.bb in r0 and c.callee.name in MULS] + [s_ for s_ in hte.stores if s_[0] in r0]
+        if bad:
+            errs.append("for a satisfied clause (None) hash still updates the accumulator")
+    r1 = hcfg.reachable_from(some_t, avoid={h_out})
+    m1 = [c for c in hte.calls if c.bb in r1 and c.callee.name in MULS]
+    if not m1 or not any(g.name in show(a) for c in m1 for a in c.args):
+        errs.append("the product returned by the helper is not multiplied into the accumulator")
+    return errs
+
+
+def _try_fold_form(prog, hashfn, names):
+    """the per-literal scan as `clause.iter().try_fold(1, |product, (weight, lit)| ..)` in a helper of the hasher: the
+    step function is evaluated for the three statuses of a literal — true: None; false: Some(product) unchanged;
+    unassigned: Some(product * weight) — and the fold starts from 1"""
+    from .base import verdict_of, errtext
+    key = hashfn.npath
+    found = []
+    for h in prog.lib_fns:
+        if h.impl_self != "repr::cnf::CnfHasher" or h is hashfn or "{closure" in h.npath:
+            continue
+        for cs in h.terms.calls:
+            if cs.callee.name != "try_fold" or len(cs.args) != 3:
+                continue
+            clo = strip(cs.args[2])
+            if not (isinstance(clo, tuple) and clo and clo[0] == "agg" and clo[1] == "closure"):
+                continue
+            ks = [k for k in prog.lib_fns if k.npath == clo[2]]
+            if ks and any(c.callee.name == "lit_implied" for c in ks[0].terms.calls):
+                found.append((h, cs, ks[0]))
+    if len(found) != 1 or not any(c.callee.name == found[0][0].name for c in hashfn.terms.calls):
+        return None
+    h, cs, k = found[0]
+
+    def ev(t, ti, tn, depth=0):
+        t0 = strip(t)
+        if depth > 12 or not isinstance(t0, tuple) or not t0:
+            return t0
+        if t0[0] == "gamma":
+            c = strip(t0[1])
+            inv = False
+            while c[0] == "un" and c[1] == "Not":
+                c, inv = strip(c[2]), not inv
+            b = None
+            if mir.is_call(c, "lit_implied"):
+                b = ti
+            elif mir.is_call(c, "lit_neg_implied"):
+                b = tn
+            if b is None:
+                return t0
+            b = b != inv
+            for lab, v in t0[2]:
+                if isinstance(lab, str) and lab in ("0", "1") and (lab == "1") == b:
+                    return ev(v, ti, tn, depth + 1)
+            for lab, v in t0[2]:
+                if isinstance(lab, tuple) and lab[0] == "not" and (("0" in lab[1]) == b):
+                    return ev(v, ti, tn, depth + 1)
+        return t0
+    r = k.terms.ret
+    acc = ("param", 2)
+    out = []
+    v_true, v_false, v_open = ev(r, True, False), ev(r, False, True), ev(r, False, False)
+    e = [] if (v_true[0] == "agg" and v_true[3] == "None") else ["a literal that is true in the model does not end the fold with None (clause satisfied): %s" % show(v_true)[:60]]
+    out.append(inst("HS", "%s:%s" % (key, names[0]), VIOLATION if e else OK, k, None, "; ".join(e) or "true literal: the fold stops with None"))
+    ok_b = v_false[0] == "agg" and v_false[3] == "Some" and strip(v_false[4][0]) == acc
+    e = [] if ok_b else ["a literal that is false in the model does not pass the product on unchanged: %s" % show(v_false)[:60]]
+    out.append(inst("HS", "%s:%s" % (key, names[1]), VIOLATION if e else OK, k, None, "; ".join(e) or "false literal: Some(product) unchanged"))
+    ok_c = False
+    if v_open[0] == "agg" and v_open[3] == "Some":
+        p_ = strip(v_open[4][0])
+        ok_c = ((mir.is_call(p_) and p_[1].name in MULS) or (p_[0] == "bin" and p_[1] in ("Mul", "MulWithOverflow"))) and \
+            acc in [strip(x) for x in (p_[2] if p_[0] == "call" else p_[2:4])] and \
+            any(isinstance(x, tuple) and x and x[0] == "param" and x[1] == 3 for a_ in (p_[2] if p_[0] == "call" else p_[2:4]) for x in [strip(a_)] + list(mir.subterms(a_)))
+    e = [] if ok_c else ["an unassigned literal's prime is not multiplied into the clause product: %s" % show(v_open)[:60]]
+    out.append(inst("HS", "%s:%s" % (key, names[2]), VIOLATION if e else OK, k, None, "; ".join(e) or "unassigned literal: Some(product * prime)"))
+    errs = []
+    seed = strip(cs.args[1])
+    if not (seed[0] == "const" and str(seed[2]) == "1"):
+        errs.append("the fold over the clause's literals starts from %s, not from 1" % show(seed)[:30])
+    hr = strip(h.terms.ret)
+    if hr != strip(cs.term):
+        errs.append("?the helper does not return the fold's result as it is")
+    errs += _hash_side(hashfn, h)
+    out.append(inst("HS", "%s:%s" % (key, names[3]), verdict_of(errs), hashfn, None,
+                    errtext(errs) if errs else "Some(product) is multiplied into every accumulator entry; None skips the clause"))
+    return out
+
+
 def helper_form(prog, hashfn):
     """CnfHasher::hash with the literal loop in a private helper `h(clause, model) -> Option<product>`:
        in the helper:  a true literal returns None with nothing multiplied; a false literal goes to the next literal with
@@ -353,6 +461,10 @@ def helper_form(prog, hashfn):
     cands = [g for g in prog.lib_fns if g.impl_self == "repr::cnf::CnfHasher" and g is not hashfn and
              any(c.callee.name == "lit_implied" for c in g.terms.calls)]
     names = ("satisfied-clause-skipped", "false-literal-skipped", "unassigned-literal-multiplied", "clause-product-accumulated")
+    if not cands:
+        tf = _try_fold_form(prog, hashfn, names)
+        if tf is not None:
+            return tf
     if len(cands) != 1 or not any(c.callee.name == cands[0].name for c in hashfn.terms.calls):
         return [inst("HS", "%s:%s" % (key, n), UNDECIDED, hashfn, None, "per-literal scan not found in hash or in one helper of the hasher") for n in names]
     g = cands[0]
@@ -418,30 +530,7 @@ def helper_form(prog, hashfn):
     errs = []
     if not any(any(x[0] == "mu" and x[1] == h_in for x in mir.subterms(a[1])) for a in some):
         errs.append("the helper does not return Some(clause product) after the last literal")
-    hte, hcfg = hashfn.terms, hashfn.cfg
-    calls = [c for c in hte.calls if c.callee.name == g.name]
-    hloops = sorted([h for h, body in hcfg.loop_headers.items() if calls and calls[0].bb in body], key=lambda h: -len(hcfg.loop_headers[h]))
-    if not calls or not hloops:
-        errs.append("?hash does not call the helper inside its clause loop")
-    else:
-        h_out = hloops[0]
-        nxt = hashfn.blocks[calls[0].bb]["term"].get("target")
-        sw = hashfn.blocks[nxt]["term"] if nxt is not None else None
-        if not sw or sw["k"] != "switch":
-            errs.append("?hash does not branch on the helper's Option")
-        else:
-            tg = {v: t for v, t in sw["targets"]}
-            none_t = tg.get("0")
-            some_t = tg.get("1", sw["otherwise"])
-            if none_t is not None:
-                r0 = hcfg.reachable_from(none_t, avoid={h_out})
-                bad = [c for c in hte.calls if c.bb in r0 and c.callee.name in MULS] + [s_ for s_ in hte.stores if s_[0] in r0]
-                if bad:
-                    errs.append("for a satisfied clause (None) hash still updates the accumulator")
-            r1 = hcfg.reachable_from(some_t, avoid={h_out})
-            m1 = [c for c in hte.calls if c.bb in r1 and c.callee.name in MULS]
-            if not m1 or not any(g.name in show(a) for c in m1 for a in c.args):
-                errs.append("the product returned by the helper is not multiplied into the accumulator")
+    errs += _hash_side(hashfn, g)
     from .base import verdict_of, errtext
     out.append(inst("HS", "%s:%s" % (key, names[3]), verdict_of(errs), hashfn, None,
                     errtext(errs) if errs else "Some(product) is multiplied into every accumulator entry; None skips the clause"))
